@@ -145,18 +145,13 @@ Lemma median_in_safe_range p st h pr :
 Proof.
   intros Hw Hd Hq. destruct (median_submitted p st pr Hw Hq) as [Hpos [a [pw [Ha [Ht _]]]]].
   split; [exact Hpos|].
-  unfold domain in Hd. repeat (apply andb_true_iff in Hd as [Hd ?]).
-  rename H3 into Hv. rewrite forallb_forall in Hv. specialize (Hv a Ha).
-  rewrite forallb_forall in Hv. specialize (Hv _ Ht). simpl in Hv. apply Z.leb_le in Hv. lia.
+  apply domain_inv in Hd as [_ [Hv _]]. specialize (Hv a _ Ha Ht). simpl in Hv. lia.
 Qed.
 
 Theorem update_no_panic p st h : wf st -> domain p st h = true -> update true p st h <> Panic.
 Proof.
   intros Hw Hd. unfold update.
-  assert (Hr : in_range (threshold_raw p (bonded_power st)) = true).
-  { unfold domain in Hd. repeat (apply andb_true_iff in Hd as [Hd ?]). exact Hd. }
-  assert (Hb : 0 <= p_reward_band p <= PREC).
-  { unfold domain in Hd. repeat (apply andb_true_iff in Hd as [Hd ?]). apply Z.leb_le in H, H0. lia. }
+  destruct (domain_inv p st h Hd) as [Hr [_ [_ [_ Hb]]]].
   rewrite Hr. rewrite andb_false_r.
   match goal with |- (if ?c then _ else _) <> _ => assert (Hc : c = true) end.
   { apply forallb_forall. intros [pr m] Hin. simpl.
